@@ -21,6 +21,95 @@ from ..model import AnalysisError, Program, call_name, norm
 from ..report import Report
 
 
+def _subst_tracks_helpers(P: Program, tracks, e: ast.expr, depth: int = 0) -> ast.expr:
+    """replace `<..>tracks.m(args)` by the returned expression of m (a one-return helper of the data model), parameters
+    bound to the arguments and `self` to the receiver"""
+    import copy as _copy
+
+    if depth > 3:
+        return e
+
+    class T(ast.NodeTransformer):
+        def visit_Call(self, c):
+            self.generic_visit(c)
+            if isinstance(c.func, ast.Attribute) and norm(c.func.value).split(".")[-1] in ("tracks", "self") and not c.keywords:
+                m = P.lookup_method(tracks.qname, c.func.attr)
+                if m is not None:
+                    rets = [r for r in ast.walk(m.node) if isinstance(r, ast.Return) and r.value is not None]
+                    body = [st for st in m.node.body if not (isinstance(st, ast.Expr) and isinstance(st.value, ast.Constant))]
+                    if len(rets) == 1 and len(body) == 1 and len(c.args) == len(m.params) - 1:
+                        bind = dict(zip(m.params[1:], c.args, strict=True))
+                        recv = c.func.value
+
+                        class B(ast.NodeTransformer):
+                            def visit_Name(self, n):
+                                if n.id in bind:
+                                    return _copy.deepcopy(bind[n.id])
+                                if n.id == "self":
+                                    return _copy.deepcopy(recv)
+                                return n
+
+                        return _subst_tracks_helpers(P, tracks, B().visit(_copy.deepcopy(rets[0].value)), depth + 1)
+            return c
+
+    return T().visit(_copy.deepcopy(e))
+
+
+def deletion_guard(P: Program, R: Report, f, tracks) -> None:
+    """A painted-over node is deleted exactly when the mask `segmentation[time] == old_value` is empty.  The test is read
+    through locals and one-line helpers of the data model; accepted emptiness forms are listed, a test with an extra
+    condition or a threshold other than zero is recognised bad, anything else is `undecided`."""
+    from ..resolve import Resolver
+
+    rs = Resolver(P, f)
+    label = "a node is deleted by a stroke exactly when none of its pixels remain in its frame"
+
+    def is_mask(e: ast.expr) -> bool:
+        return (isinstance(e, ast.Compare) and len(e.ops) == 1 and isinstance(e.ops[0], ast.Eq) and isinstance(e.left, ast.Subscript)
+                and norm(e.left.value).endswith("segmentation") and norm(e.left.slice) == "time" and norm(e.comparators[0]) == "old_value")
+
+    def emptiness(e: ast.expr):
+        """True: `mask is empty`; False: recognised other test; None: unknown"""
+        if isinstance(e, ast.UnaryOp) and isinstance(e.op, ast.Not):
+            x = e.operand
+            if isinstance(x, ast.Call) and call_name(x) in ("any", "sum", "count_nonzero") and ((x.args and is_mask(x.args[0])) or (isinstance(x.func, ast.Attribute) and is_mask(x.func.value))):
+                return True
+            return None
+        if isinstance(e, ast.Compare) and len(e.ops) == 1 and isinstance(e.left, ast.Call) and call_name(e.left) in ("sum", "count_nonzero", "len") :
+            x = e.left
+            arg = x.args[0] if x.args else (x.func.value if isinstance(x.func, ast.Attribute) else None)
+            if isinstance(arg, ast.Call) and call_name(arg) in ("nonzero", "flatnonzero", "argwhere") and arg.args:
+                arg = arg.args[0]
+            if arg is not None and is_mask(arg):
+                k = e.comparators[0]
+                if isinstance(k, ast.Constant):
+                    if (isinstance(e.ops[0], ast.Eq) and k.value == 0) or (isinstance(e.ops[0], ast.LtE) and k.value == 0) or (isinstance(e.ops[0], ast.Lt) and k.value == 1):
+                        return True
+                    return False
+        return None
+
+    n = 0
+    for g in ast.walk(f.node):
+        if not (isinstance(g, ast.If) and any(isinstance(x, ast.Call) and call_name(x) == "UserDeleteNode" for s_ in g.body for x in ast.walk(s_))):
+            continue
+        n += 1
+        test = g.test
+        if isinstance(test, ast.BoolOp):
+            R.fail("R07.5", f, g, label, f"deletion guard is `{norm(test)[:140]}`: an extra condition decides whether a node without pixels is deleted (or one with pixels is)")
+            continue
+        e = _subst_tracks_helpers(P, tracks, rs.expand(test))
+        e = rs.expand(e)
+        v = emptiness(e)
+        if v is True:
+            R.ok("R07.5", f, g, label, f"`{norm(test)[:80]}` is the emptiness of segmentation[time] == old_value", via="guard-shape")
+        elif v is False:
+            R.fail("R07.5", f, g, label, f"deletion guard is `{norm(test)[:140]}`: a node can be deleted while some of its label remains (or kept with none)")
+        else:
+            R.undecided("R07.5", f, g, label, f"guard `{norm(e)[:100]}` not recognised")
+    if n == 0:
+        R.undecided("R07.5", f, f.node, label, "no conditional UserDeleteNode in the paint update")
+
+
 def run(P: Program, R: Report, tier: str) -> None:
     R.explanation = (
         "Who-may-write analysis of the segmentation array (E4) and who-may-call of set_pixels; "
@@ -211,22 +300,7 @@ def run(P: Program, R: Report, tier: str) -> None:
         release_before_claim(R, f, results, "R07.10")
         R.floor("R07.8", "(node, pixels) pairs recorded by the paint update", len(pair_seen), 3)
         # ---- R07.5 deletion guard
-        for g in ast.walk(f.node):
-            if isinstance(g, ast.If) and any(isinstance(x, ast.Call) and call_name(x) == "UserDeleteNode" for s in g.body for x in ast.walk(s)):
-                test = g.test
-                txt = norm(test)
-                # substitute single-assignment locals
-                for s in ast.walk(f.node):
-                    if isinstance(s, ast.Assign) and len(s.targets) == 1 and isinstance(s.targets[0], ast.Name) and isinstance(test, (ast.Compare, ast.UnaryOp)):
-                        nm = s.targets[0].id
-                        if nm in {x.id for x in ast.walk(test) if isinstance(x, ast.Name)} and nm not in ("time", "old_value", "pixels"):
-                            txt = txt.replace(nm, f"({norm(s.value)})")
-                single = not isinstance(test, ast.BoolOp)
-                empt = ("segmentation[time] == old_value" in txt) and (
-                    ("np.sum(" in txt and txt.rstrip().endswith("== 0")) or ("np.any(" in txt and txt.startswith("not ")) or ("count_nonzero(" in txt and txt.rstrip().endswith("== 0")) or (".any()" in txt and txt.startswith("not "))
-                )
-                R.check(single and empt, "R07.5", f, g, "a node is deleted by a stroke exactly when none of its pixels remain in its frame",
-                        f"deletion guard is `{norm(test)[:140]}`: a node can be deleted while some of its label remains (or kept with none)", via="guard-shape")
+        deletion_guard(P, R, f, tracks)
 
     # ---- R07.6 pixels reach the primitive
     for c in A.user_actions:
